@@ -12,7 +12,9 @@ TECHNIQUE = ("Coq theorems over all strings/states/tapes about the Gallina model
 LEVEL_TEXT = ("checkSafeName is proved equivalent to 'not empty, not . or .., no slash' by induction on the string; the model of every handler is proved to pass only safe names "
               "to the backend from any state whose path tree holds safe names (an invariant of every history); every run re-checks the proofs, re-extracts which string fields "
               "of the T-messages are checked before any LookupFID, and drives the real server with hostile names in every name position.")
-LEVEL_NOTE = "Trusted: Coq kernel + vm_compute; hand model tied by HandlerGen.v and the differential; Go strings.Contains/Split modelled by contains_char/split_on."
+LEVEL_NOTE = ("Trusted: Coq kernel + vm_compute; hand model tied by HandlerGen.v and the differential; Go strings.Contains/Split modelled by contains_char/split_on (bytes). "
+              "Server/Summaries.v model_traces is a hand-reviewed transcript of the alpha-normalised (local names positional) source traces, not derived from Handlers.v; "
+              "only its guard sequences are rendered from the model's guard table. C09_dirs_only_step is stated per walk step (three one-step unfoldings of walk_loop), not over histories.")
 DESIGN_REF = "6/C09"
 ASSUMPTIONS = [
     "names longer than 65535 bytes cannot be sent (9P string length is 16 bits)",
@@ -47,9 +49,10 @@ def run(ctx):
         "evaluations": st["steps"],
         "distinct_nontrivial": distinct,
         "rule": "every name position x hostile strings (empty, dots, embedded/trailing slashes, NUL/high bytes, 65535-byte names), attach names, walks through files/symlinks/devices, "
-                "plus generated histories with 45% hostile names; distinct = distinct (request type, reply class, backend call shape) triples",
+                "plus generated histories with 45% hostile names; " + vsrv.DISTINCT_RULE + "; samples: boundary = a request refused for an unsafe name",
         "correspondence": {"cases": st["steps"], "mismatches": nm, "property_failures": nf, "hostile_strings_sent": hostile, "distribution": st},
-        "samples": [good[0]["steps"][4], good[0]["steps"][5]],
+        "samples": vsrv.samples(good, boundary=lambda st: st["rt"] == 7 and st["errno"] == 22 and not st["calls"] and any(
+            bytes.fromhex(x) in (b"", b".", b"..") or b"/" in bytes.fromhex(x) for x in st["req"]["s"])),
     })
 
 
